@@ -71,18 +71,24 @@ theorem segConserved_repaired (d : ℝ → ℝ → ℝ → ℝ → ℝ) (glat gl
   · exact sum_segFractions_zero_fixed Rules.repaired rfl d glat glon s h
   · rw [sum_segFractions_of_ne _ d glat glon s h, hadd h, div_self h]
 
-/-- The two shares of the antimeridian-crossing segment add up to its value. -/
-theorem dateline_split_conserves (v l1 l2 : ℝ) (h : l1 + l2 ≠ 0) :
-    v * l1 / (l1 + l2) + v * l2 / (l1 + l2) = v := by
-  field_simp
+/-- The two shares of the antimeridian-crossing segment add up to its value — whether the crossing segment has length or not
+    (a repeated point written as +π / −π: half each). -/
+theorem dateline_split_conserves (v l1 l2 : ℝ) :
+    splitShare v l1 (l1 + l2) + splitShare v l2 (l1 + l2) = v := splitShare_sum v l1 l2
+
+/-- The code as it was before the second C04 fix (`value * length / total` throughout): on a crossing segment without length
+    both shares are `v * 0 / 0`, which is `NaN` in floating point and 0 over ℝ (division by zero totalised) — either way the
+    value `v` is lost.  Kernel-checkable witness over ℝ; the floating-point replay is in `known_findings.json`. -/
+theorem dateline_split_as_found_loses_value (v : ℝ) (hv : v ≠ 0) : v * 0 / (0 + 0) + v * 0 / (0 + 0) ≠ v := by
+  simp; exact fun h => hv h.symm
 
 /-- … and so do the integrated-variable arrays of the two parts of a split trajectory. -/
 theorem split_values_conserve (pi : ℝ) (sign : Int) (idx : Nat) (latc l1 l2 : ℝ) (t : Traj ℝ)
-    (h : l1 + l2 ≠ 0) (v : List ℝ) (hv : v ∈ t.integ) (hidx : idx < v.length) :
+    (v : List ℝ) (hv : v ∈ t.integ) (hidx : idx < v.length) :
     ∃ v1 ∈ (splitFirst pi sign idx latc l1 (l1 + l2) t).integ,
       ∃ v2 ∈ (splitSecond pi sign idx latc l2 (l1 + l2) t).integ, v1.sum + v2.sum = v.sum := by
   refine ⟨_, List.mem_map.2 ⟨v, hv, rfl⟩, _, List.mem_map.2 ⟨v, hv, rfl⟩, ?_⟩
-  exact sum_split v idx hidx _ _ (by field_simp)
+  exact sum_split v idx hidx _ _ (splitShare_sum _ _ _)
 
 /-- The gridded array of an integrated variable is the concatenation of the segments' pieces, hence its total
     is the sum of the per-segment totals. -/
@@ -121,8 +127,7 @@ theorem gridTraj_conserves (r : Rules) (d : ℝ → ℝ → ℝ → ℝ → ℝ)
     (hseg1 : ∀ s ∈ mkSegs (splitParts r d pi t).1.lats (splitParts r d pi t).1.lons,
       SegConserved r d g.glat g.glon s)
     (hseg2 : ∀ s ∈ mkSegs (splitParts r d pi t).2.lats (splitParts r d pi t).2.lons,
-      SegConserved r d g.glat g.glon s)
-    (hl : splitL1 r d pi t + splitL2 r d pi t ≠ 0) :
+      SegConserved r d g.glat g.glon s) :
     (gridTraj r d pi g t).integ.map List.sum = t.integ.map List.sum := by
   unfold gridTraj
   simp only
@@ -156,7 +161,7 @@ theorem gridTraj_conserves (r : Rules) (d : ℝ → ℝ → ℝ → ℝ → ℝ)
     apply List.map_congr_left
     intro v hvm
     have := hv v hvm
-    exact sum_split v (splitIdx pi t) (by omega) _ _ (by field_simp)
+    exact sum_split v (splitIdx pi t) (by omega) _ _ (splitShare_sum _ _ _)
 
 /-! ### the exact additive stub measure |Δlat| + |Δlon| (used by the correspondence check) -/
 
@@ -169,19 +174,18 @@ theorem taxi_segment_conserved (glat glon : List ℝ) (hlat : glat.Pairwise (· 
     segConserved_repaired taxi glat glon s (fun _ => taxi_chain_additive glat glon hlat hlon s)
   rw [sum_segValues, h, mul_one]
 
-/-- … hence so is every trajectory with at most one antimeridian crossing whose crossing segment has non-zero
-    length: the gridded total of every integrated variable **equals** the trajectory total. -/
+/-- … hence so is every trajectory with at most one antimeridian crossing (a crossing
+    segment without length included): the gridded total of every integrated variable **equals** the trajectory total. -/
 theorem taxi_gridTraj_conserves (pi : ℝ) (g : Grid ℝ) (t : Traj ℝ)
     (hlat : g.glat.Pairwise (· < ·)) (hlon : g.glon.Pairwise (· < ·))
     (hcross : ((crossings pi t.lons).filter (· ≠ 0)).length ≤ 1)
     (hlen : t.lats.length = t.lons.length)
-    (hv : ∀ v ∈ t.integ, v.length + 1 = t.lons.length)
-    (hl : splitL1 Rules.repaired taxi pi t + splitL2 Rules.repaired taxi pi t ≠ 0) :
+    (hv : ∀ v ∈ t.integ, v.length + 1 = t.lons.length) :
     (gridTraj Rules.repaired taxi pi g t).integ.map List.sum = t.integ.map List.sum := by
   have hseg : ∀ s, SegConserved Rules.repaired taxi g.glat g.glon s := fun s =>
     segConserved_repaired taxi g.glat g.glon s (fun _ => taxi_chain_additive g.glat g.glon hlat hlon s)
   exact gridTraj_conserves Rules.repaired taxi pi g t hcross hlen hv (fun s _ => hseg s) (fun s _ => hseg s)
-    (fun s _ => hseg s) hl
+    (fun s _ => hseg s)
 
 /-- The geodesic-type statement for the whole plain trajectory: with a metric `d`, non-negative values and
     segments of positive length the gridded total is never less than the trajectory total (segment by segment). -/
@@ -202,15 +206,18 @@ translator generation); `Lemmas/KernelBridge8.lean` proves them equal to the mod
 
 open KernelBridge8 in
 /-- **The antimeridian split of the source conserves every integrated value.**  For the integrated array `iv` of any length,
-    any crossing index inside it and part lengths with a non-zero total — the total `_calculate_segment_lengths` returns IS the
-    sum of the two part lengths, for any distance function (second claim) — the arrays `_dateline_split_first_segment` and
+    any crossing index inside it and ANY part lengths (a crossing segment without length included: half each) — the total
+    `_calculate_segment_lengths` returns IS the sum of the two part lengths, for any distance function (second claim) — the arrays `_dateline_split_first_segment` and
     `_dateline_split_second_segment` build sum to the sum of `iv`. -/
-theorem src_split_conserves (lats lons alts times sv iv : List ℝ) (idx : Nat) (s l1 l2 : ℝ) (h : l1 + l2 ≠ 0)
+theorem src_split_conserves (lats lons alts times sv iv : List ℝ) (idx : Nat) (neg : Bool) (l1 l2 : ℝ)
     (hidx : idx < iv.length) :
-    (Kern.grid_split_first_integ lats lons alts times sv iv idx s l1 (l1 + l2)).sum
-      + (Kern.grid_split_second_integ lats lons alts times sv iv idx s l2 (l1 + l2)).sum = iv.sum := by
-  simp only [Kern.grid_split_first_integ, Kern.grid_split_second_integ, List.singleton_append, getAt_eq]
-  exact sum_split iv idx hidx _ _ (by field_simp)
+    (Kern.grid_split_first_integ lats lons alts times sv iv idx ((sgn neg : Int) : ℝ) l1 (l1 + l2)).sum
+      + (Kern.grid_split_second_integ lats lons alts times sv iv idx ((sgn neg : Int) : ℝ) l2 (l1 + l2)).sum = iv.sum := by
+  have h1 := (split_first lats lons alts times sv iv idx neg l1 (l1 + l2)).2.2.2.2.2
+  have h2 := (split_second lats lons alts times sv iv idx neg l2 (l1 + l2)).2.2.2.2.2
+  simp only [splitFirst, splitSecond, trajOf, List.map, List.cons.injEq, and_true] at h1 h2
+  rw [← h1, ← h2]
+  exact sum_split iv idx hidx _ _ (splitShare_sum _ _ _)
 
 open KernelBridge8 in
 theorem src_split_total_is_sum (dist : ℝ → ℝ → ℝ → ℝ → ℝ) (lats lons : List ℝ) (idx : Nat) (neg : Bool) :
@@ -258,9 +265,9 @@ theorem src_pieces_sum_to_value (v dseg : ℝ) (count : Nat) (subs : List ℝ)
 
 open KernelBridge8 in
 /-- the hypotheses of `src_split_conserves` / `src_pieces_sum_to_value` are satisfiable, and the statements are not trivial there -/
-example : (Kern.grid_split_first_integ ([] : List ℝ) [] [] [] [] [4, 6, 8] 1 1 1 (1 + 3)).sum
-    + (Kern.grid_split_second_integ ([] : List ℝ) [] [] [] [] [4, 6, 8] 1 1 3 (1 + 3)).sum = 18 := by
-  have := src_split_conserves [] [] [] [] [] [4, 6, 8] 1 1 1 3 (by norm_num) (by simp)
+example : (Kern.grid_split_first_integ ([] : List ℝ) [] [] [] [] [4, 6, 8] 1 ((sgn false : Int) : ℝ) 1 (1 + 3)).sum
+    + (Kern.grid_split_second_integ ([] : List ℝ) [] [] [] [] [4, 6, 8] 1 ((sgn false : Int) : ℝ) 3 (1 + 3)).sum = 18 := by
+  have := src_split_conserves [] [] [] [] [] [4, 6, 8] 1 false 1 3 (by simp)
   rw [this]; norm_num
 
 
